@@ -85,6 +85,10 @@ def run(ctx):
             expect_violation="ReturnedInjective")
     ctx.tlc("socket", "MappedAddrs", cfg="MappedAddrs_nounique.cfg", mode="mc", workers=2, coverage=False,
             expect_violation="ReturnedInjective")
+    # growth (thorough only): SendPath.tla composes classification + reverse lookups into the destination -> path step of
+    # Sender::poll_send, with all three maps and concurrent get()s (1.27e6 states; model-checked only, see its header)
+    if not ctx.quick:
+        ctx.tlc("socket", "SendPath", cfg="SendPath.cfg", mode="mc", timeout=3000, coverage=False)
     # 4. classification table (mode A)
     res = ctx.tlc("socket", "Gen_Classify", cfg="Gen_Classify.cfg", mode="gen", coverage=False)
     rows = res.replays
